@@ -69,57 +69,52 @@ LocalForms == <<"abs", "dot", "bare">>
 GridForms == <<"alias", "parentcap", "dotcap">>
 Flags == <<[r |-> FALSE, caps |-> FALSE], [r |-> TRUE, caps |-> FALSE], [r |-> FALSE, caps |-> TRUE], [r |-> TRUE, caps |-> TRUE]>>
 
-\* source points and target points of a world, in TLC's fixed order (form filled in per row)
-SrcPtsOf(w) ==
-  SetToSeq({[side |-> sd, p |-> p, named |-> TRUE, slash |-> FALSE] : sd \in {"local", "grid"}, p \in Worlds[w].src}
-           \cup {[side |-> sd, p |-> p, named |-> TRUE, slash |-> TRUE] : sd \in {"local", "grid"}, p \in Worlds[w].slashed}
-           \cup {[side |-> "grid", p |-> p, named |-> FALSE, slash |-> FALSE] : p \in Worlds[w].unnamed})
-TgtPtsOf(w) == SetToSeq({[side |-> sd, p |-> p, slash |-> sl] : sd \in {"local", "grid"}, p \in Worlds[w].tgt, sl \in BOOLEAN})
-\* constant-level tables (evaluated once)
-SrcSeq == [w \in DOMAIN Worlds |-> SrcPtsOf(w)]
-TgtSeq == [w \in DOMAIN Worlds |-> TgtPtsOf(w)]
-SrcPts(w) == SrcSeq[w]
-TgtPts(w) == TgtSeq[w]
-\* the parent of the target must be a directory that exists (deeper missing paths: not modelled)
-AdmSet == [w \in DOMAIN Worlds |-> {t \in 1..Len(TgtSeq[w]) :
-             LET tp == TgtSeq[w][t] IN tp.p = <<>> \/ KindAt(Side(Worlds[w].W, tp.side), Parent(tp.p)) = "dir"}]
-\* sources of the lists of three: the ones that exist, written without a slash
-PlainSet == [w \in DOMAIN Worlds |-> {i \in 1..Len(SrcSeq[w]) :
-               ~SrcSeq[w][i].slash /\ SrcKind(Worlds[w].W, SrcSeq[w][i]) # "missing"}]
+\* source points and target points of a world (record wr of Worlds), in TLC's fixed order (form filled in per row)
+SrcPtsOf(wr) ==
+  SetToSeq({[side |-> sd, p |-> p, named |-> TRUE, slash |-> FALSE] : sd \in {"local", "grid"}, p \in wr.src}
+           \cup {[side |-> sd, p |-> p, named |-> TRUE, slash |-> TRUE] : sd \in {"local", "grid"}, p \in wr.slashed}
+           \cup {[side |-> "grid", p |-> p, named |-> FALSE, slash |-> FALSE] : p \in wr.unnamed})
+TgtPtsOf(wr) == SetToSeq({[side |-> sd, p |-> p, slash |-> sl] : sd \in {"local", "grid"}, p \in wr.tgt, sl \in BOOLEAN})
+
+\* the tables of one world, computed once per world (TLC evaluates a LET definition once)
+\*   adm:   targets whose parent is a directory that exists (deeper missing paths: not modelled)
+\*   plain: sources of the lists of three: the ones that exist, written without a slash
+Tables(wr) ==
+  LET S == SrcPtsOf(wr)
+      T == TgtPtsOf(wr)
+  IN [W |-> wr.W, S |-> S, T |-> T,
+      adm |-> {t \in 1..Len(T) : T[t].p = <<>> \/ KindAt(Side(wr.W, T[t].side), Parent(T[t].p)) = "dir"},
+      plain |-> SetToSeq({i \in 1..Len(S) : ~S[i].slash /\ SrcKind(wr.W, S[i]) # "missing"})]
 
 SrcForm(s, h) == IF s.side = "local" THEN LocalForms[(h % 3) + 1]
                  ELSE IF s.named THEN GridForms[(h % 3) + 1]
                  ELSE IF s.p = <<>> /\ h % 2 = 0 THEN "alias" ELSE "rawcap"
 TgtForm(t, h) == IF t.side = "local" THEN LocalForms[(h % 3) + 1] ELSE GridForms[(h % 3) + 1]
 
-Hash(ix, t, f) == f * 43 + t * 41 + (IF Len(ix) >= 1 THEN ix[1] * 31 ELSE 0) + (IF Len(ix) >= 2 THEN ix[2] * 37 ELSE 0)
-                  + (IF Len(ix) >= 3 THEN ix[3] * 47 ELSE 0)
-
-Row(w, ix, t, f) ==
-  LET S == SrcPts(w)
-      h == Hash(ix, t, f) + Seed
-      a == [srcs |-> [k \in 1..Len(ix) |-> S[ix[k]] @@ [form |-> SrcForm(S[ix[k]], h + k)]],
-            tgt |-> TgtPts(w)[t] @@ [form |-> TgtForm(TgtPts(w)[t], h \div 3)],
-            r |-> Flags[f].r, caps |-> Flags[f].caps]
-  IN [world |-> w, a |-> a, res |-> Cp(Worlds[w].W, a)]
-
-\* one source: every (source, target, flags), thinned to one in Mod1
-Rows1(w) == {Row(w, <<x[1]>>, x[2], x[3]) :
-               x \in {y \in (1..Len(SrcSeq[w])) \X AdmSet[w] \X (1..4) : (Hash(<<y[1]>>, y[2], y[3]) + Seed) % Mod1 = 0}}
-\* two sources: every (first source, target, flags), thinned to one in Mod2; the second source follows from the same arithmetic
+Hash(i, t, f) == f * 43 + t * 41 + i * 31
 Pick(n, h) == (h % n) + 1
-Rows2(w) ==
-  LET NS == Len(SrcSeq[w]) IN
-  {Row(w, <<x[1], Pick(NS, (Hash(<<x[1]>>, x[2], x[3]) + Seed) \div Mod2)>>, x[2], x[3]) :
-     x \in {y \in (1..NS) \X AdmSet[w] \X (1..4) : (Hash(<<y[1]>>, y[2], y[3]) + Seed) % Mod2 = 0}}
-\* three sources (of the ones that exist, written without a slash), without --caps-only
-PlainSeq == [w \in DOMAIN Worlds |-> SetToSeq(PlainSet[w])]
-Rows3(w) ==
-  LET PS == PlainSeq[w] NP == Len(PS) IN
-  {LET h == (Hash(<<x[1]>>, x[2], x[3]) + Seed) \div Mod3 IN Row(w, <<x[1], PS[Pick(NP, h)], PS[Pick(NP, h \div NP)]>>, x[2], x[3]) :
-     x \in {y \in PlainSet[w] \X AdmSet[w] \X (1..2) : (Hash(<<y[1]>>, y[2], y[3]) + Seed) % Mod3 = 0}}
 
-Rows == UNION {Rows1(w) \cup Rows2(w) \cup Rows3(w) : w \in WorldNames}
+Row(w, tb, ix, t, f) ==
+  LET h == Hash(ix[1], t, f) + Seed
+      a == [srcs |-> [k \in 1..Len(ix) |-> tb.S[ix[k]] @@ [form |-> SrcForm(tb.S[ix[k]], h + k)]],
+            tgt |-> tb.T[t] @@ [form |-> TgtForm(tb.T[t], h \div 3)],
+            r |-> Flags[f].r, caps |-> Flags[f].caps]
+  IN [world |-> w, W |-> tb.W, a |-> a, res |-> Cp(tb.W, a)]
+
+RowsOf(w, tb) ==
+  LET NS == Len(tb.S)
+      NP == Len(tb.plain)
+      Sel(I, F, m) == {y \in I \X tb.adm \X F : (Hash(y[1], y[2], y[3]) + Seed) % m = 0}
+      H(x, m) == (Hash(x[1], x[2], x[3]) + Seed) \div m
+  IN \* one source: every (source, target, flags), thinned to one in Mod1
+     {Row(w, tb, <<x[1]>>, x[2], x[3]) : x \in Sel(1..NS, 1..4, Mod1)}
+     \* two sources: every (first source, target, flags), thinned to one in Mod2; the second source follows from the arithmetic
+     \cup {Row(w, tb, <<x[1], Pick(NS, H(x, Mod2))>>, x[2], x[3]) : x \in Sel(1..NS, 1..4, Mod2)}
+     \* three sources (of the plain ones), without --caps-only
+     \cup {Row(w, tb, <<x[1], tb.plain[Pick(NP, H(x, Mod3))], tb.plain[Pick(NP, H(x, Mod3) \div NP)]>>, x[2], x[3]) :
+             x \in Sel(ToSet(tb.plain), 1..2, Mod3)}
+
+Rows == LET WS == Worlds IN UNION {RowsOf(w, Tables(WS[w])) : w \in WorldNames}
 
 (* ---- output ------------------------------------------------------------------------------------------- *)
 TreeOut(T) == {[p |-> PathStr(q), k |-> T[q].k, c |-> T[q].c, mu |-> T[q].mu, o |-> T[q].o] : q \in DOMAIN T}
@@ -133,17 +128,18 @@ Out(row) ==
    expect |-> row.res.expect, errs |-> row.res.errs, why |-> row.res.why,
    maydirs |-> {PathStr(d) : d \in row.res.maydirs},
    T1 |-> TreeOut(Side(row.res, row.a.tgt.side))]
-WorldOut(w) == [world |-> w, expect |-> "WORLD", L0 |-> TreeOut(Worlds[w].W.L), G0 |-> TreeOut(Worlds[w].W.G)]
+WorldOut(w, wr) == [world |-> w, expect |-> "WORLD", L0 |-> TreeOut(wr.W.L), G0 |-> TreeOut(wr.W.G)]
 
-ASSUME \A w \in WorldNames : WellFormed(Worlds[w].W.L) /\ WellFormed(Worlds[w].W.G)
-ASSUME ndJsonSerialize(IOEnv.OUT_FILE, SetToSeq({WorldOut(w) : w \in WorldNames}) \o SetToSeq({Out(row) : row \in Rows}))
+ASSUME LET WS == Worlds IN \A w \in WorldNames : WellFormed(WS[w].W.L) /\ WellFormed(WS[w].W.G)
+ASSUME LET WS == Worlds IN
+       ndJsonSerialize(IOEnv.OUT_FILE, SetToSeq({WorldOut(w, WS[w]) : w \in WorldNames}) \o SetToSeq({Out(row) : row \in Rows}))
 
 VARIABLE c
 Init == c \in Rows
 Next == UNCHANGED c
 Spec == Init /\ [][Next]_c
 
-W_ == Worlds[c.world].W
+W_ == c.W
 CP_NeedsRecursive_ == CP_NeedsRecursive(W_, c.a, c.res)
 CP_MissingSource_ == CP_MissingSource(W_, c.a, c.res)
 CP_ErrorChangesNothing_ == CP_ErrorChangesNothing(W_, c.a, c.res)
